@@ -57,6 +57,7 @@ def cases(draw):
     return {"entities": [[t, f] for t, f in ents], "e": e, "o": o, "op": op, "prev": prev, "new": draw(data_dict),
             "other": draw(data_dict), "mode": draw(st.sampled_from(["crash", "crash", "crash", "corrupt"])),
             "next": draw(st.sampled_from(["grow", "shrink"])),
+            "longname": draw(st.sampled_from([None] * 9 + [0, 0, 1, 3, 4, 5])),
             "config": draw(st.sampled_from([None, None, None] + [c for c in model.paths if c != model.default_config]))}
 
 
@@ -74,6 +75,24 @@ def evaluate(case) -> Outcome:
     ents = [(t, f) for t, f in case["entities"]]
     te, fe = ents[case["e"] % len(ents)]
     to, fo = ents[case["o"] % len(ents)]
+    if case.get("longname") is not None:
+        # a free value so long that the sidecar's file name is AT (or 1, 3, 4 characters below) the file-name limit of 255:
+        # whatever temporary name the writer derives from it is then too long, or just fits
+        fk = [k for k in m.keys(te) if m.specs[(te, k)].free]
+        if fk:
+            k = fk[-1]
+            n1 = len(sidecar(model, pm.render(te, dict(fe, **{k: "x"}))).name)
+            n2 = len(sidecar(model, pm.render(te, dict(fe, **{k: "xx"}))).name)
+            slope = n2 - n1
+            if slope > 0:
+                want = 255 - int(case["longname"])
+                n = 1 + (want - n1) // slope
+                longv = "x" * max(1, n)
+                if len(os.path.basename(pm.render(te, dict(fe, **{k: longv})))) <= 255 and \
+                        len(sidecar(model, pm.render(te, dict(fe, **{k: longv}))).name) == want:
+                    old = (te, fe)
+                    fe = dict(fe, **{k: longv})
+                    ents = [(te, fe) if x == old else x for x in ents]
     se, so = m.render(te, fe), m.render(to, fo)
     pe, po = pm.render(te, fe), pm.render(to, fo)
     op = case["op"]
@@ -127,6 +146,16 @@ def evaluate(case) -> Outcome:
     with fsfault.interpose(sess):
         ok, r = call(lambda: do_op(WriteToPaths(cname)))
     if not ok:
+        import errno
+        if case.get("longname") is not None and isinstance(r, OSError) and r.errno == errno.ENAMETOOLONG:
+            # refused as a whole because a derived file name is too long: nothing may have changed
+            if op != "create_data" and tree.snapshot(root) != S0:   # (create may have made the entity before its data was refused)
+                out.add("C17/name-too-long/changed-tree", f"{op}({se[:60]!r}...) raised {r!r} and changed the tree")
+            okr, rec = read(se)
+            if not okr or rec != old_rec:
+                out.add("C17/name-too-long/data-changed", f"{op} raised {r!r}; get_data = {rec}, expected the previous data {old_rec}")
+            out.label("name-too-long-refused")
+            return out
         out.add(f"C17/complete-run/raises/{exc_sig(r)}", f"{op}({se!r}, {case['new']}) raised {r!r} without any fault")
         return out
     S1 = tree.snapshot(root)
